@@ -38,11 +38,11 @@ Definition kinds_agree (t : aty) : Prop :=
   end.
 
 Lemma kinds_ok (t : aty) :
-  ty_dom t = true -> ty_bare_window t = false -> ty_short_request t = false ->
+  ty_dom t = true -> ty_bare_window t = false ->
   kinds_agree t.
 Proof.
   unfold kinds_agree. destruct t as [pre n args|]; [|simpl; auto].
-  intros Hd Hw Hr. unfold ty_dom in Hd. apply andb_true_iff in Hd as [Hsane Hd].
+  intros Hd Hw. unfold ty_dom in Hd. apply andb_true_iff in Hd as [Hsane Hd].
   destruct n.
   - (* AppHandle *) unfold spec_kind. rewrite Hd. unfold pre_root in Hd.
     destruct pre as [|[] [|? ?]]; try discriminate; simpl; auto.
@@ -58,8 +58,8 @@ Proof.
     + cbn [orb] in Hd. apply andb_true_iff in Hd as [Hnil Hnone].
       destruct pre; [|discriminate]. destruct args; [discriminate|]. simpl; auto.
   - (* Manager *) unfold spec_kind. destruct pre as [|[] [|[] [|? ?]]]; simpl in *; try discriminate; auto.
-  - (* Request *) unfold spec_kind. rewrite Hd. unfold pre_ipc in Hd.
-    destruct pre as [|[] [|[] [|? ?]]]; simpl in *; try discriminate; auto.
+  - (* Request *) apply andb_true_iff in Hd as [Hp Hd]. unfold spec_kind. rewrite Hp. unfold pre_ipc in Hp.
+    destruct pre as [|[] [|[] [|? ?]]]; cbn in *; try discriminate; rewrite ?orb_false_r in Hd; rewrite ?Hd; auto.
   - (* Channel *) apply andb_true_iff in Hd as [Hp Hd]. unfold spec_kind. rewrite Hp. cbn [andb].
     destruct (first_is_type args) eqn:Hf.
     + pose proof (first_is_type_angle _ Hf) as Ha. unfold pre_ipc in Hp.
@@ -132,8 +132,7 @@ Proof.
   rewrite (H x (or_introl eq_refl)), IH by (intros y Hy; apply H; right; exact Hy). reflexivity.
 Qed.
 
-Definition no_spelling_class (c : cmd) : Prop :=
-  kf_bare_window c = false /\ kf_short_request c = false.
+Definition no_spelling_class (c : cmd) : Prop := kf_bare_window c = false.
 
 Lemma existsb_false_In {A} (f : A -> bool) l x : existsb f l = false -> In x l -> f x = false.
 Proof. intros H Hin. destruct (f x) eqn:E; [|reflexivity]. rewrite <- H. symmetry. apply existsb_exists. eauto. Qed.
@@ -141,11 +140,10 @@ Proof. intros H Hin. destruct (f x) eqn:E; [|reflexivity]. rewrite <- H. symmetr
 Lemma param_kinds (c : cmd) (p : param) :
   cmd_dom c = true -> no_spelling_class c -> In p (c_params c) -> kinds_agree (p_ty p).
 Proof.
-  intros Hd (Hw & Hr) Hin. unfold cmd_dom in Hd. apply andb_true_iff in Hd as [_ Hd].
+  intros Hd Hw Hin. unfold cmd_dom in Hd. apply andb_true_iff in Hd as [_ Hd].
   pose proof (proj1 (forallb_forall _ _) Hd p Hin) as Hp. apply andb_true_iff in Hp as [_ Hp].
   apply kinds_ok; auto.
-  - apply (existsb_false_In _ _ p Hw Hin).
-  - apply (existsb_false_In _ _ p Hr Hin).
+  apply (existsb_false_In _ _ p Hw Hin).
 Qed.
 
 (* the key the generator gives to a parameter Tauri names = the key Tauri gives *)
@@ -320,8 +318,8 @@ Definition w_underscore : cmd := {| c_name := L "odd_name"; c_macro_case := None
   c_params := [mkp "__" (plain_t NOther); mkp "user_id" (plain_t NOther)] |}.
 
 Definition only_class (i : nat) (cf : cfg) (c : cmd) : bool :=
-  let l := [kf_bare_window c; kf_short_request c; kf_macro_case cf c; kf_underscore_name cf c] in
-  forallb (fun jb => Bool.eqb (snd jb) (Nat.eqb (fst jb) i)) (combine (seq 0 4) l).
+  let l := [kf_bare_window c; kf_macro_case cf c; kf_underscore_name cf c] in
+  forallb (fun jb => Bool.eqb (snd jb) (Nat.eqb (fst jb) i)) (combine (seq 0 3) l).
 Definition good (cf : cfg) (m : mode) (c : cmd) : bool :=
   match generate cf m c with
   | Panic => false
@@ -332,17 +330,13 @@ Lemma refuted_bare_window :
   cmd_dom w_window = true /\ only_class 0 cfg_default w_window = true /\
   bad cfg_default Plain w_window = true /\ bad cfg_default Zod w_window = true.
 Proof. vm_compute. auto. Qed.
-Lemma refuted_short_request :
-  cmd_dom w_request = true /\ only_class 1 cfg_default w_request = true /\
-  bad cfg_default Plain w_request = true /\ bad cfg_default Zod w_request = true.
-Proof. vm_compute. auto. Qed.
 Lemma refuted_macro_case :
-  cmd_dom w_macro = true /\ only_class 2 cfg_default w_macro = true /\
+  cmd_dom w_macro = true /\ only_class 1 cfg_default w_macro = true /\
   bad cfg_default Plain w_macro = true /\ bad cfg_default Zod w_macro = true.
 Proof. vm_compute. auto. Qed.
 (* since the call-site guard: no panic, but the key is the name itself where Tauri deserialises the empty string *)
 Lemma refuted_underscore_name :
-  cmd_dom w_underscore = true /\ only_class 3 cfg_default w_underscore = true /\
+  cmd_dom w_underscore = true /\ only_class 2 cfg_default w_underscore = true /\
   bad cfg_default Plain w_underscore = true /\ bad cfg_default Zod w_underscore = true /\
   spec_keys cfg_default w_underscore = [([], false); (L "userId", false)] /\
   option_map kb_of (match generate cfg_default Plain w_underscore with Ok g => invoke_keys g | Panic => None end)
@@ -354,6 +348,15 @@ Lemma fixed_ipc_channel :
   cmd_dom w_ipc_channel = true /\ kf_any cfg_default w_ipc_channel = false /\
   good cfg_default Plain w_ipc_channel = true /\ good cfg_default Zod w_ipc_channel = true /\
   spec_keys cfg_default w_ipc_channel = [(L "onEvent", false); (L "jobId", false)].
+Proof. vm_compute. repeat split; reflexivity. Qed.
+
+Definition w_request_ipc : cmd := {| c_name := L "raw_call"; c_macro_case := None;
+  c_params := [mkp "request" (APath [SIpc] NRequest (Some [GLife])); mkp "user_id" (plain_t NOther)] |}.
+Lemma fixed_short_request :
+  cmd_dom w_request = true /\ kf_any cfg_default w_request = false /\
+  good cfg_default Plain w_request = true /\ good cfg_default Zod w_request = true /\
+  spec_keys cfg_default w_request = [(L "userId", false)] /\
+  cmd_dom w_request_ipc = true /\ good cfg_default Plain w_request_ipc = true /\ good cfg_default Zod w_request_ipc = true.
 Proof. vm_compute. repeat split; reflexivity. Qed.
 
 (* generation never panics, whatever the names (the guard covers the function name and every key) *)
